@@ -103,9 +103,28 @@ theorem levels_matches_hashranges (H : Bytes → Bytes) (post : Bool) (leaves : 
   refine ⟨nextPowerOfTwo_eq _ (by omega) h32, p, leaf, h2, h5, ?_⟩
   have hr : genRoot H post leaves = some (root, sorted) := h1
   have hm := genProofE_hasMatch H post (entries H leaves) (by omega) (by omega) root sorted h1 i p leaf h2
-  simp only [hr, validateProof, h5, ne_eq, not_true_eq_false, if_false, hm, Bool.not_true,
+  simp only [hr, validateProof, validateProofH, h5, ne_eq, not_true_eq_false, if_false, hm, Bool.not_true,
     Bool.false_eq_true]
   exact h4
+
+/-- **The verifier's scheme is the session's.**  Root and proof of a claim are generated with the
+layout in force at the session height (`postSession`); the keeper verifies with that same layout,
+so the generated proof of every committed position passes `Keeper.ValidateProof`'s merkle part on
+either side of the upgrade the proof block may be (`postProofBlock` arbitrary) — in particular for
+a session in flight across the hashing upgrade. -/
+theorem verify_scheme_is_sessions (H : Bytes → Bytes) (postSession postProofBlock : Bool)
+    (leaves : List Bytes) (hn : 2 ≤ leaves.length) (h32 : leaves.length ≤ 2 ^ 32)
+    (hg : GoodSums H leaves) (i : Nat) (hi : i < leaves.length) :
+    ∃ root sorted p leaf, genRoot H postSession leaves = some (root, sorted) ∧
+      genProof H postSession leaves i = some (p, leaf) ∧
+      keeperValidate H postSession postProofBlock p root leaf leaves.length = some (true, false) := by
+  obtain ⟨_, p, leaf, hgen, _, hv⟩ := levels_matches_hashranges H postSession leaves hn h32 hg i hi
+  obtain ⟨root, sorted, _, _, hr, _, _, _⟩ := proof_verifies H postSession leaves hn h32 hg i hi
+  refine ⟨root, sorted, p, leaf, hr, hgen, ?_⟩
+  simp only [hr] at hv
+  exact hv
+
+example : verifierScheme false true = false ∧ verifierScheme true false = true := by decide
 
 /-- The keeper's `hasMatch` test (some sibling entry or the target ends where the root ends) never
 rejects a generated proof — for any leaf set, good sums or not. -/
